@@ -398,9 +398,12 @@ def InBody_endTagFormatting_outer (tok : Token) : Nat → M Unit
         modifyArena (·.reparentChildren furthestBlock clone)
         -- step 13
         modifyArena (·.appendChild furthestBlock clone)
-        -- step 14
+        -- step 14 (1544-1550; since fix 0929291 the bookmark, noted while `formattingElement` was still in the
+        -- list, is adjusted when the removal shifts it)
+        let feIndex ← afeIndex formattingElement site
+        let bookmark := if s.bookmark > feIndex then s.bookmark - 1 else s.bookmark
         afeRemove formattingElement site
-        setAfe (listInsert (← afe) s.bookmark (some clone))
+        setAfe (listInsert (← afe) bookmark (some clone))
         -- step 15
         openRemove formattingElement site
         let fi ← openIndex furthestBlock site
@@ -442,17 +445,16 @@ def InBody_startTagNobr (r : Rec) (tok : Token) : M (Option Token) := do
   InBody_addFormattingElement tok
   pure none
 
-/-- `InBodyPhase.startTagButton` (1106-1115) -/
+/-- `InBodyPhase.startTagButton` (1110-1117): after closing an open `button` the token is inserted here (since
+fix 6523d65; it used to be handed back to `mainLoop`) -/
 def InBody_startTagButton (r : Rec) (tok : Token) : M (Option Token) := do
   if (← elementInScope (lit "button")) then
     parseError "unexpected-start-tag-implies-end-tag" [("startName", lit "button"), ("endName", lit "button")]
     let _ ← r.processEndTag .inBody (impliedEnd "button")
-    pure (some tok)
-  else
-    reconstructActiveFormattingElements
-    let _ ← insertElementTok tok "InBodyPhase.startTagButton"
-    setFramesetOK false
-    pure none
+  reconstructActiveFormattingElements
+  let _ ← insertElementTok tok "InBodyPhase.startTagButton"
+  setFramesetOK false
+  pure none
 
 /-- `InBodyPhase.startTagAppletMarqueeObject` (1117-1121) -/
 def InBody_startTagAppletMarqueeObject (tok : Token) : M (Option Token) := do
